@@ -250,7 +250,7 @@ def run(ctx):
                 "word over field letters {0,+-2,+-9} x weight letters {1,60,0} x four shifts for the clipping branches")
     ctx.assume("Gaussian average taken by tensor Gauss-Hermite quadrature (exact for the polynomial part to degree 2m-1); residuals below 2e-9 are treated as quadrature/round-off floor")
     ctx.assume("hook values _verif_imp_fun/_verif_theta are the library's own imp_fun/theta (guarded add-only hook in propagate())")
-    ctx.pmap(job, configs(ctx.tier, ctx.seed))
+    ctx.pmap(job, configs(ctx.tier, ctx.seed), tasks_per_child=2)
     ctx.require_guard("ladder_ratios_live", "branch_cos_nonpositive", "branch_below_1e-3", "branch_above_100",
                       "branch_product_above_100", "branch_normal")
 
